@@ -16,6 +16,9 @@ use crate::schedx::{CaseInfo, Judgement};
 
 #[derive(Clone, Debug)]
 pub struct Case {
+    /// this opener, once inside, first runs a commit whose first sync fails (EIO) and then one that
+    /// has to grow (and map again) the file, before its ordinary commit
+    pub sync_fault_grow: Option<usize>,
     /// (process cases) every opener reads its own file through a second descriptor while inside
     pub second_fd: bool,
     /// the openers are real child processes stepped through pipes (c13p) instead of threads
@@ -32,20 +35,22 @@ pub struct Case {
 pub fn cases(tier: Tier) -> Vec<Case> {
     let q = tier == Tier::Quick;
     vec![
-        Case { second_fd: false, procs: false, init_fault: None, eintr: false, openers: 2, file_exists: true, bound: if q { 6 } else { 12 } },
-        Case { second_fd: false, procs: false, init_fault: None, eintr: false, openers: 2, file_exists: false, bound: if q { 4 } else { 8 } },
-        Case { second_fd: false, procs: false, init_fault: None, eintr: false, openers: 3, file_exists: true, bound: if q { 2 } else { 3 } },
-        Case { second_fd: false, procs: false, init_fault: None, eintr: false, openers: 3, file_exists: false, bound: if q { 2 } else { 3 } },
-        Case { second_fd: false, procs: false, init_fault: None, eintr: true, openers: 2, file_exists: true, bound: if q { 3 } else { 6 } },
-        Case { second_fd: false, procs: false, init_fault: None, eintr: true, openers: 3, file_exists: false, bound: if q { 1 } else { 2 } },
-        Case { second_fd: false, procs: false, init_fault: Some(0), eintr: false, openers: 3, file_exists: false, bound: if q { 2 } else { 3 } },
-        Case { second_fd: false, procs: false, init_fault: Some(1), eintr: false, openers: 3, file_exists: false, bound: if q { 1 } else { 2 } },
+        Case { sync_fault_grow: None, second_fd: false, procs: false, init_fault: None, eintr: false, openers: 2, file_exists: true, bound: if q { 6 } else { 12 } },
+        Case { sync_fault_grow: None, second_fd: false, procs: false, init_fault: None, eintr: false, openers: 2, file_exists: false, bound: if q { 4 } else { 8 } },
+        Case { sync_fault_grow: None, second_fd: false, procs: false, init_fault: None, eintr: false, openers: 3, file_exists: true, bound: if q { 2 } else { 3 } },
+        Case { sync_fault_grow: None, second_fd: false, procs: false, init_fault: None, eintr: false, openers: 3, file_exists: false, bound: if q { 2 } else { 3 } },
+        Case { sync_fault_grow: None, second_fd: false, procs: false, init_fault: None, eintr: true, openers: 2, file_exists: true, bound: if q { 3 } else { 6 } },
+        Case { sync_fault_grow: None, second_fd: false, procs: false, init_fault: None, eintr: true, openers: 3, file_exists: false, bound: if q { 1 } else { 2 } },
+        Case { sync_fault_grow: None, second_fd: false, procs: false, init_fault: Some(0), eintr: false, openers: 3, file_exists: false, bound: if q { 2 } else { 3 } },
+        Case { sync_fault_grow: None, second_fd: false, procs: false, init_fault: Some(1), eintr: false, openers: 3, file_exists: false, bound: if q { 1 } else { 2 } },
+        Case { sync_fault_grow: Some(0), second_fd: false, procs: false, init_fault: None, eintr: false, openers: 2, file_exists: true, bound: if q { 2 } else { 4 } },
+        Case { sync_fault_grow: Some(0), second_fd: false, procs: true, init_fault: None, eintr: false, openers: 2, file_exists: true, bound: if q { 3 } else { 6 } },
         // the same bodies as real processes under the kernel's own flock
-        Case { second_fd: false, procs: true, init_fault: None, eintr: false, openers: 2, file_exists: true, bound: if q { 4 } else { 12 } },
-        Case { second_fd: false, procs: true, init_fault: None, eintr: false, openers: 2, file_exists: false, bound: if q { 4 } else { 8 } },
-        Case { second_fd: false, procs: true, init_fault: None, eintr: false, openers: 3, file_exists: false, bound: if q { 2 } else { 3 } },
-        Case { second_fd: true, procs: true, init_fault: None, eintr: false, openers: 2, file_exists: true, bound: if q { 3 } else { 6 } },
-        Case { second_fd: false, procs: true, init_fault: Some(0), eintr: false, openers: 3, file_exists: false, bound: if q { 1 } else { 2 } },
+        Case { sync_fault_grow: None, second_fd: false, procs: true, init_fault: None, eintr: false, openers: 2, file_exists: true, bound: if q { 4 } else { 12 } },
+        Case { sync_fault_grow: None, second_fd: false, procs: true, init_fault: None, eintr: false, openers: 2, file_exists: false, bound: if q { 4 } else { 8 } },
+        Case { sync_fault_grow: None, second_fd: false, procs: true, init_fault: None, eintr: false, openers: 3, file_exists: false, bound: if q { 2 } else { 3 } },
+        Case { sync_fault_grow: None, second_fd: true, procs: true, init_fault: None, eintr: false, openers: 2, file_exists: true, bound: if q { 3 } else { 6 } },
+        Case { sync_fault_grow: None, second_fd: false, procs: true, init_fault: Some(0), eintr: false, openers: 3, file_exists: false, bound: if q { 1 } else { 2 } },
     ]
 }
 
@@ -53,7 +58,7 @@ pub fn case_infos(tier: Tier) -> Vec<CaseInfo> {
     cases(tier)
         .iter()
         .map(|c| CaseInfo {
-            label: format!("{}{}openers-{}{}-c{}", if c.procs { "processes-" } else { "" }, c.openers, if c.file_exists { "existing" } else { "absent" }, if c.second_fd { "-second-descriptor" } else if c.eintr { "-one-EINTR" } else if let Some(i) = c.init_fault { if i == 0 { "-initfail0" } else { "-initfail1" } } else { "" }, c.bound),
+            label: format!("{}{}openers-{}{}-c{}", if c.procs { "processes-" } else { "" }, c.openers, if c.file_exists { "existing" } else { "absent" }, if c.sync_fault_grow.is_some() { "-syncfail-then-growth" } else if c.second_fd { "-second-descriptor" } else if c.eintr { "-one-EINTR" } else if let Some(i) = c.init_fault { if i == 0 { "-initfail0" } else { "-initfail1" } } else { "" }, c.bound),
             describe: json!({"openers_are": if c.procs { "child processes released one system call at a time; flock answered by the kernel" } else { "threads; flock modelled by the scheduler" }, "openers": c.openers, "file": if c.file_exists { "exists (empty database, closed)" } else { "does not exist yet" }, "opener_body": "open(path); inside += 1; commit own marker; read all markers; yield; inside -= 1; close", "preemption_bound": c.bound}),
         })
         .collect()
@@ -92,7 +97,7 @@ fn markers(tx: &jammdb::Tx, n: usize) -> Result<Vec<usize>, String> {
 
 pub fn run_one(case: &Case, path: &str, prefix: &[u8], policy: RwPolicy) -> (ExecResult, Vec<Judgement>, String) {
     if case.procs {
-        let pc = crate::c13p::PCase { openers: case.openers, file_exists: case.file_exists, init_fault: case.init_fault, second_fd: case.second_fd };
+        let pc = crate::c13p::PCase { openers: case.openers, file_exists: case.file_exists, init_fault: case.init_fault, second_fd: case.second_fd, sync_fault_grow: case.sync_fault_grow };
         return crate::c13p::run_one(&pc, path, prefix);
     }
     let _ = std::fs::remove_file(path);
@@ -110,9 +115,11 @@ pub fn run_one(case: &Case, path: &str, prefix: &[u8], policy: RwPolicy) -> (Exe
     for i in 0..n {
         let inside = inside.clone();
         let obs = obs.clone();
-        let cfg = cfg.clone();
+        // every opener asks for a different initial size (only the creator's may matter)
+        let cfg = Cfg { num_pages: 16 * (i + 1), ..cfg.clone() };
         let path = path.to_string();
         let init_fault = case.init_fault == Some(i);
+        let sync_fault_grow = case.sync_fault_grow == Some(i);
         bodies.push(Box::new(move |ctx: &Ctx| {
             if init_fault {
                 crate::iosim::with_plan(|p| {
@@ -166,6 +173,11 @@ pub fn run_one(case: &Case, path: &str, prefix: &[u8], policy: RwPolicy) -> (Exe
                 let mut o = obs.lock().unwrap();
                 o.max_inside = o.max_inside.max(now);
                 o.order.push(i);
+            }
+            if sync_fault_grow {
+                if let Err(e) = crate::c13p::sync_fault_then_growth(&db) {
+                    obs.lock().unwrap().errors.push((i, e));
+                }
             }
             let r = real::guarded(|| -> Result<Vec<usize>, String> {
                 let tx = db.tx(true).map_err(|e| format!("tx(true): {:?}", e))?;
